@@ -117,7 +117,7 @@ func execHist(a []string) (string, string) {
 				items = append(items, "L")
 				continue
 			}
-			cc := map[rune]byte{'F': 0, 'E': 0xC1, 'B': 0xC0, 'T': 0xC3}[l]
+			cc := histCode(l)
 			var msg []byte
 			switch l {
 			case 'X':
@@ -143,8 +143,8 @@ func execHist(a []string) (string, string) {
 			case 'F':
 				e.resp[0]++
 				okCall = true
-			case 'E':
-				e.resp[0xC1]++
+			case 'E', 'a', 'b', 'd', 'e', 'f', 'h', 'i', 'j', 'm', 'n':
+				e.resp[int(histCode(l))]++
 				okCall = true
 			case 'B':
 				e.resp[0xC0]++
@@ -373,7 +373,7 @@ func genHist(g *genCtx) {
 	if g.thorough() {
 		n = 3000
 	}
-	letters := "FEBTXGL"
+	letters := "FEBTXGLFEBTXGLabdefhijmn" // final error answers carry a dozen different completion codes
 	script := func(max int) string {
 		k := g.rng.Intn(max + 1)
 		if k == 0 {
@@ -436,4 +436,11 @@ func genHist(g *genCtx) {
 		}
 		g.emit(Op{Class: 'P', NonTrivial: hasFail && hasRetry, Kind: "hist", Args: evs})
 	}
+}
+
+// histCode: the completion code a letter of a `hist` script stands for (final error codes beyond C1h: 01h, 41h, 80h, 81h, D0h, D3h,
+// FFh, CCh, 7Fh, C9h — command-specific, OEM and generic ones, among them neighbours of the two temporary codes)
+func histCode(l rune) byte {
+	return map[rune]byte{'F': 0, 'E': 0xC1, 'B': 0xC0, 'T': 0xC3, 'a': 0x01, 'b': 0x41, 'd': 0x81, 'e': 0xD0, 'f': 0xD3, 'h': 0xFF,
+		'i': 0xCC, 'j': 0x7F, 'm': 0xC9, 'n': 0x80}[l]
 }
